@@ -219,6 +219,11 @@ def decodeRow : List (FTy × SortOptions) → List UInt8 → Option (List FVal)
     | none => none
     | some (v, rest) => (decodeRow fs rest).map (v :: ·)
 
+/-- `list::encode_one` for a non-null list whose elements have the row encodings `xs`: every
+element row is variable-length encoded, then the empty sentinel terminates the list -/
+def listEnc (o : SortOptions) (xs : List (List UInt8)) : List UInt8 :=
+  (xs.map (fun x => encodeVar o (some x))).flatten ++ encodeVar o (some [])
+
 /-! ### nested types (`lib.rs::encode_column`, `list.rs`, `run.rs`) -/
 
 inductive Ty
@@ -232,6 +237,10 @@ inductive Ty
   /-- Dictionary: encoded as its values -/
   | dict (t : Ty)
   | ree (t : Ty)
+  /-- Map: a list of (key, value) entries -/
+  | map (k v : Ty)
+  /-- Union (sparse or dense) with the type id of every field -/
+  | union (ids : List Nat) (kids : List Ty)
   deriving Repr
 
 inductive Val
@@ -240,6 +249,8 @@ inductive Val
   | bytes (b : List UInt8)
   | tuple (vs : List Val)
   | list (vs : List Val)
+  /-- a union value: field position and the value of that field -/
+  | union (idx : Nat) (v : Val)
   deriving Repr
 
 /-- options of list / run-end children: `descending: false, nulls_first: nulls_first != descending` -/
@@ -277,6 +288,26 @@ def encode (o : SortOptions) : Ty → Val → List UInt8
   | .dict t, v => encode o t v
   /- `run::encode` -/
   | .ree t, v => encodeVar o (some (encode (childOpts o) t v))
+  /- `Encoder::Map` + `list::encode`: like a list whose element rows are key ++ value -/
+  | .map _ _, .null => encodeVar o none
+  | .map _ _, .list [] => encodeVar o (some [])
+  | .map k v, .list es =>
+    (es.map (fun e => encodeVar o (some (
+      match e with
+      | .tuple [a, b] => encode (childOpts o) k a ++ encode (childOpts o) v b
+      | _ => [])))).flatten ++ encodeVar o (some [])
+  | .map _ _, _ => []
+  /- `Encoder::Union`: the type id byte (inverted when descending) followed by the child row,
+  which is encoded ascending and — as written — copied without inversion.  A null slot of an
+  enclosing struct/dictionary is `new_null_array`: the first field's id with a null child. -/
+  | .union ids kids, .union idx v =>
+    invIf o.descending [UInt8.ofNat (ids.getD idx 0)] ++ encodeNth (childOpts o) kids idx v
+  | .union ids kids, _ =>
+    invIf o.descending [UInt8.ofNat (ids.getD 0 0)] ++ encodeNth (childOpts o) kids 0 .null
+def encodeNth (o : SortOptions) : List Ty → Nat → Val → List UInt8
+  | t :: _, 0, v => encode o t v
+  | _ :: ts, n + 1, v => encodeNth o ts n v
+  | [], _, _ => []
 def encodeFields (o : SortOptions) : List Ty → List Val → List UInt8
   | t :: ts, v :: vs => encode o t v ++ encodeFields o ts vs
   | _, _ => []
@@ -305,6 +336,18 @@ def conforms : Ty → Val → Bool
   | .fsl _ _, _ => false
   | .dict t, v => conforms t v
   | .ree t, v => conforms t v
+  | .map _ _, .null => true
+  | .map k v, .list es => es.all (fun e =>
+      match e with
+      | .tuple [a, b] => conforms k a && conforms v b
+      | _ => false)
+  | .map _ _, _ => false
+  | .union _ kids, .union idx v => conformsNth kids idx v
+  | .union _ _, _ => false
+def conformsNth : List Ty → Nat → Val → Bool
+  | t :: _, 0, v => conforms t v
+  | _ :: ts, n + 1, v => conformsNth ts n v
+  | [], _, _ => false
 def conformsAll : List Ty → List Val → Bool
   | [], [] => true
   | t :: ts, v :: vs => conforms t v && conformsAll ts vs
@@ -330,6 +373,8 @@ def supportsDatatype : Ty → Bool
   | .fsl _ t => supportsDatatype t
   | .dict t => !t.isNested
   | .ree t => supportsDatatype t
+  | .map k v => supportsDatatype k && supportsDatatype v
+  | .union _ kids => supportsAll kids
 def supportsAll : List Ty → Bool
   | [] => true
   | t :: ts => supportsDatatype t && supportsAll ts
